@@ -165,7 +165,49 @@ func evalC15Set(v *engine.Verdict, x *C15Case) {
 			return
 		}
 	}
-	// Args(): the values rendered as options satisfy a function over the same set
+	// Args(): the values rendered as options satisfy a function over the same
+	// set, which receives exactly these values (another rendering of the set
+	// that must restore every value). Names must be unique per type for the
+	// expected token to be unique: only when no two values share a type.
+	typeSeen := map[int]bool{}
+	uniqTypes := true
+	for _, w := range x.Vals {
+		if typeSeen[w.Type] || engine.IsIface(w.Type) {
+			uniqTypes = false
+		}
+		typeSeen[w.Type] = true
+	}
+	if uniqTypes && len(x.Vals) > 0 {
+		inSet, err := argmapper.NewValueSet(vsValues(x.Vals))
+		if err != nil {
+			v.Failf("NewValueSet: %v", err)
+			return
+		}
+		var seen []int
+		consumer, err := argmapper.BuildFunc(inSet, nil, func(in, out *argmapper.ValueSet) error {
+			seen = nil
+			for _, g := range in.Values() {
+				seen = append(seen, engine.Observe(g.Value).Tok)
+			}
+			return nil
+		})
+		if err != nil {
+			v.Failf("BuildFunc: %v", err)
+			return
+		}
+		res := consumer.Call(append(vs.Args(), engine.Quiet())...)
+		if res.Err() != nil {
+			v.Failf("a function over the same value set, called with vs.Args(), failed: %.200s", res.Err())
+			return
+		}
+		for i, w := range x.Vals {
+			if i >= len(seen) || seen[i] != w.Tok {
+				v.Failf("called with vs.Args(): value %d arrived as #%v, want #%d", i, seen, w.Tok)
+				return
+			}
+		}
+		v.Class("args-round-trip")
+	}
 	v.NonTrivial = len(x.Vals) >= 2 && (subs > 0 || typed > 0)
 	if subs > 0 {
 		v.Class("has-subtype")
